@@ -50,6 +50,8 @@ pub struct RShared {
     invalid: Mutex<HashSet<u64>>,
     /// the validity check of these connections fails exactly once (the next time it is asked)
     invalid_once: Mutex<HashSet<u64>>,
+    /// the validity check of these connections panics (once) - with a payload that is not a string
+    panic_once: Mutex<HashSet<u64>>,
     checks: AtomicU64,
 }
 pub struct RMgr(Arc<RShared>);
@@ -66,6 +68,9 @@ impl r2d2::ManageConnection for RMgr {
         let _ = self.0.checks.fetch_add(1, Ordering::SeqCst);
         if self.0.invalid_once.lock().unwrap().remove(&c.serial) {
             return Err(RErr("invalid (this once)".into()));
+        }
+        if self.0.panic_once.lock().unwrap().remove(&c.serial) {
+            std::panic::panic_any(InjectedPanic(18));
         }
         if self.0.invalid.lock().unwrap().contains(&c.serial) {
             Err(RErr("invalid".into()))
@@ -530,7 +535,11 @@ pub fn history(backend: Backend, seed: u64, idx: u64) -> Case {
                     let m = held[i].1;
                     match (&held[i].0, &pool) {
                         (AnyConn::R2d2(_), AnyPool::R2d2(_, sh)) => {
-                            let how = match rng.below(3) {
+                            let how = match rng.below(4) {
+                                3 => {
+                                    let _ = sh.panic_once.lock().unwrap().insert(m);
+                                    "a connection whose next validity check panics"
+                                }
                                 0 => {
                                     let _ = sh.broken.lock().unwrap().insert(m);
                                     "broken"
@@ -567,6 +576,26 @@ pub fn history(backend: Backend, seed: u64, idx: u64) -> Case {
                                     let _ = bad.insert(m);
                                     log.push(format!("#{} fails every statement from now on (interrupted with a statement still running)", m));
                                     *counters.entry("sqlite_connections_broken".into()).or_insert(0) += 1;
+                                }
+                            }
+                        }
+                        (AnyConn::Diesel(c), _) if rng.chance(1, 3) => {
+                            // the transaction manager in its error state: a transaction is begun through diesel,
+                            // rolled back behind its back, and diesel's own rollback then fails
+                            if !bad.contains(&m) {
+                                let r = guarded(c.interact(|c| {
+                                    use diesel::connection::{AnsiTransactionManager, TransactionManager};
+                                    use diesel::RunQueryDsl;
+                                    AnsiTransactionManager::begin_transaction(c)?;
+                                    let _ = diesel::sql_query("ROLLBACK").execute(c)?;
+                                    let _ = AnsiTransactionManager::rollback_transaction(c);
+                                    Ok::<bool, diesel::result::Error>(AnsiTransactionManager::is_broken_transaction_manager(c))
+                                }))
+                                .await;
+                                if matches!(r, Ok(Ok(Ok(true)))) {
+                                    let _ = bad.insert(m);
+                                    log.push(format!("#{}: transaction manager driven into its error state", m));
+                                    *counters.entry("diesel_txn_manager_in_error".into()).or_insert(0) += 1;
                                 }
                             }
                         }
